@@ -14,7 +14,7 @@ impl FromStr for Label {
         Ok(if s.starts_with('α') {
             let tail: String = s.chars().skip(1).collect::<Vec<_>>().into_iter().collect();
             Self::Alpha(tail.parse::<usize>()?)
-        } else if s.len() == 1 {
+        } else if s.chars().count() == 1 {
             Self::Greek(s.chars().next().unwrap())
         } else {
             let v: Vec<char> = s.chars().collect();
